@@ -42,7 +42,7 @@ import re
 import types
 from typing import Any, Optional
 
-from .. import c13_context, c13_shapes, core, pyz
+from .. import c13_context, c13_decls, c13_shapes, core, pyz
 from ..annot_codec import (
     CodecError,
     V,
@@ -812,6 +812,60 @@ def run_varargs(check: core.Check, quick: bool, rnd: random.Random) -> None:
     check.cov["varargs_replay_is_exhaustive"] = exhaustive
 
 
+# --------------------------------------------------------------------------- part F: declarations of structured types
+
+
+def judge_decls(check: core.Check, cases: list[dict], label: str) -> dict[str, int]:
+    t0 = time.time()
+    parts = core.pmap(c13_decls.observe_decls, _batches(cases, 12), chunk=1)
+    obs = _flatten(parts)
+    t1 = time.time()
+    verdicts, stats = _adjudicate("DeclFieldsTrace", "DeclFieldsTrace.cfg", [{k: v for k, v in o.items() if k != "src"} for o in obs],
+                                  batch=60, parallel=8, timeout=3000)
+    check.cov.setdefault("timing", []).append({"what": "decls:" + label, "observe_s": round(t1 - t0, 1), "adjudicate_s": round(time.time() - t1, 1)})
+    check.add_trace_stats(stats)
+    counts: dict[str, int] = {"cases": len(obs), "dev": 0}
+    for o in obs:
+        c = o["c"]
+        counts[c["kind"]] = counts.get(c["kind"], 0) + 1
+        check.evals(22 if c["kind"] == "td" else 7)
+        if c["kind"] != "td" or c["stack"]:
+            check.nontrivial("decl|" + core.canon(c))          # non-trivial = the field carries a qualifier / is a dataclass or NamedTuple field
+        seen: set[str] = set()
+        for v in verdicts.get(o["tid"], []):
+            if v in seen:
+                continue
+            seen.add(v)
+            payload = {"kind": "decl", "c": c, "src": o["src"], "source_text": c13_decls.defining_source(c),
+                       "observed": {k: v2 for k, v2 in o.items() if k not in ("tid", "c", "src")}, "source": label}
+            if v.startswith("oracle:"):
+                raise core.MachineryError(f"{v} on declaration {c}: {payload['observed']}")
+            if v.startswith("viol:"):
+                check.violation(core.canon({"c": c, "clause": v[5:]}), v[5:], payload)
+            elif v.startswith("dev:"):
+                counts["dev"] += 1
+                check.violation(v[4:], v[4:], payload)
+            elif v.startswith("drift:"):
+                check.drift({"verdict": v, "c": c, "observed": payload["observed"]})
+    for o in obs[:: max(1, len(obs) // 2)][:2]:
+        check.sample({"source": "decls:" + label, **o})
+    return counts
+
+
+def run_decls(check: core.Check, quick: bool, rnd: random.Random) -> None:
+    """spec/DeclFields.tla: TypedDict / dataclass / NamedTuple declarations in three spellings; the space is small, it
+    is model checked and replayed completely in both tiers."""
+    res = core.require_ok(_tlc("DeclFieldsEmit", "DeclFields.quick.cfg", coverage=True, timeout=1800), "DeclFields exhaustive")
+    core.require_coverage(res, ["ChooseKind", "ChooseDecl", "ChooseSpelling"], "DeclFields")
+    check.add_tlc("exhaustive+emit:DeclFields.quick.cfg", res)
+    cases = core.emitted_json(res)
+    if not cases:
+        raise core.MachineryError("TLC emitted no declaration cases")
+    check.cov["model_cases_decls"] = len(cases)
+    counts = judge_decls(check, cases, "tlc-exhaustive")
+    check.cov.setdefault("replay", {})["decls"] = {**counts, "replay_is_exhaustive": True}
+
+
 _sens_pool = None
 _sens_jobs: list = []
 
@@ -876,6 +930,11 @@ def run(check: core.Check) -> None:
         "Unpack[tuple[A, ...]] and **kwargs: Unpack[TD] (keyword parameters per key, NotRequired = optional) is RefSlots of "
         "DefVarargs.tla (PEP 646 / 692); quoting does not change the meaning; CPython does not enforce it, so it is not "
         "executed -- both signature views must show it and the three call contexts must agree",
+        "declaration slice: the declared meaning of a TypedDict item is RefRequired / RefReadonly of DeclFields.tla (PEP 589 / "
+        "655 / 705: Required / NotRequired override totality, ReadOnly makes the item read-only, Annotated and quoting change "
+        "nothing); an operation is 'rejected' iff some error code is reported on it; what CPython records on the class "
+        "(__required_keys__, __readonly_keys__, the dataclass / NamedTuple __init__) is a model validated on every "
+        "observation (oracle:PyKeys / oracle:PyInitParams); typing_extensions as installed in /venv",
     ]
     # ---------------- part A: annotations
     if quick:
@@ -974,6 +1033,11 @@ def run(check: core.Check) -> None:
     _sensitivity("DefVarargs", "DefVarargs.strict.cfg", "VarargViewsAgreeStrict")
     _sensitivity("DefVarargs", "DefVarargs.bugstring.cfg", "VarargViewsAgree")
     run_varargs(check, quick, rnd)
+    # ---------------- part F: declarations of structured types (TypedDict / dataclass / NamedTuple fields)
+    for cfg, inv in (("strict1", "DeclaredMeaningStrict"), ("strict2", "FieldRoutesAgreeStrict"), ("strict3", "ConstructorTypedStrict"),
+                     ("bugreadonly", "DeclaredMeaning"), ("bugreadonly2", "SpellingIndependent"), ("bugrequired", "DeclaredMeaning")):
+        _sensitivity("DeclFields", f"DeclFields.{cfg}.cfg", inv)
+    run_decls(check, quick, rnd)
     check.cov["sensitivity_runs"] = _sensitivity_join()
     check.cov["exhaustive"] = exhaustive_a and exhaustive_h and bool(check.cov.get("context_replay_is_exhaustive"))
     check.cov.setdefault("replay", {}).update({
@@ -989,7 +1053,7 @@ def run(check: core.Check) -> None:
         "taken from any module that defines it) CtxDeclaringModule, and NeverForeignCell is violated (some history does leave "
         "the other module's class on a shared ForwardRef); shape slice: ShapeViewsAgreeStrict (the declared-Callable "
         "deviation is real), BugBoundKeepsFirst, BugAsyncGenWrapped violate ShapeViewsAgree, FixedAsyncGenInferred = FALSE (the code before repo b243661) violates CallAwaitableAgrees, HeaderDefaultsEqual is violated "
-        "by call / lambda defaults; vararg slice: VarargViewsAgreeStrict (the two deviation classes are real), BugStringDropsAllowUnpack (a string annotation evaluated without allow_unpack) violates VarargViewsAgree; corrupted real observations of every new clause are flagged (--selftest-binding)"
+        "by call / lambda defaults; vararg slice: VarargViewsAgreeStrict (the two deviation classes are real), BugStringDropsAllowUnpack (a string annotation evaluated without allow_unpack) violates VarargViewsAgree; declaration slice: the three *Strict invariants (the three deviation classes are real), BugReadOnlyOnlyWithoutKeys (a ReadOnly found in the evaluated annotation honoured only when the class has no __readonly_keys__) violates DeclaredMeaning and SpellingIndependent, BugRequiredFromKeysOnly violates DeclaredMeaning; corrupted real observations of every new clause are flagged (--selftest-binding)"
     )
     check.cov["rule"] = (
         "annotation cases = expression trees TLC builds bottom-up from the leaf/unary/binary forms of Annotations.tla up to "
@@ -1017,7 +1081,9 @@ def _size(e: dict) -> int:
 
 
 def replay(check: core.Check, witness: dict) -> None:
-    if witness.get("kind") == "context":
+    if witness.get("kind") == "decl":
+        judge_decls(check, [witness["c"]], "replay")
+    elif witness.get("kind") == "context":
         judge_context(check, [{"w": witness["w"], "hist": witness["hist"]}], "replay")
     elif witness.get("kind") == "shape":
         judge_shapes(check, [{"h": witness["h"], "shape": witness["shape"], "calls": witness["calls"]}], "replay")
@@ -1111,6 +1177,27 @@ def selftest_binding(check: core.Check) -> None:
     print("vararg: runtime view degraded  ->", vgood, v12)
     if vgood or "viol:VarargViewsAgree" not in v12.get(0, []):
         raise core.MachineryError("binding self-test failed: a degraded **kwargs view was not flagged")
+    # a typing_extensions TypedDict whose ReadOnly[int] field is quoted: the runtime route says "writable"
+    dcase = {"kind": "td", "base": "ext", "total": True, "stack": ["ReadOnly"], "spelling": "quoted", "inherit": False, "q": "none", "dflt": False}
+    (do,) = c13_decls.observe_decls((0, [dcase]))
+    do.pop("src")
+    dgood, _ = _adjudicate("DeclFieldsTrace", "DeclFieldsTrace.cfg", [do])
+    dbad = json.loads(json.dumps(do))
+    dbad["entries"]["rt"][1] = "writable"
+    v13, _ = _adjudicate("DeclFieldsTrace", "DeclFieldsTrace.cfg", [dbad])
+    dbad2 = json.loads(json.dumps(do))
+    dbad2["ops"]["imp"]["set"] = []                              # the importer lets a read-only key be assigned
+    v14, _ = _adjudicate("DeclFieldsTrace", "DeclFieldsTrace.cfg", [dbad2])
+    dbad3 = json.loads(json.dumps(do))
+    dbad3["keys"]["readonly"] = "yes"                            # CPython would have recorded the quoted ReadOnly
+    v15, _ = _adjudicate("DeclFieldsTrace", "DeclFieldsTrace.cfg", [dbad3])
+    print("decl: rt entry writable        ->", v13)
+    print("decl: importer op accepted     ->", v14)
+    print("decl: key set corrupted        ->", v15)
+    if (any(not x.startswith("dev:") for x in dgood.get(0, [])) or not {"viol:DeclaredMeaning@rt", "viol:FieldRoutesAgree"} <= set(v13.get(0, []))
+            or not {"viol:OperationsFollowDeclaration@imp", "viol:OperationsJudgedIdentically"} <= set(v14.get(0, []))
+            or "oracle:PyKeys" not in v15.get(0, [])):
+        raise core.MachineryError("binding self-test failed: a corrupted declaration observation was not flagged")
     print("uncorrupted:", good, hgood, cgood, sgood)
     print("context: B's sig route -> A.K  ->", v5)
     print("context: cell state corrupted  ->", v6)
